@@ -22,7 +22,7 @@ CHECKS = {
 }
 
 
-READY = {'C06', 'C09', 'C10', 'C16'}
+READY = set(CHECKS)     # an entry is added to CHECKS only when its check holds on the unchanged tree
 
 
 def main():
